@@ -4154,6 +4154,25 @@ func (p *Posix) CopyObject(ctx context.Context, input s3response.CopyObjectInput
 			return &s3.CopyObjectOutput{}, s3err.GetAPIError(s3err.ErrInvalidCopyDest)
 		}
 
+		// in a bucket with versioning enabled this is a write like any
+		// other: archive the current version with its own metadata and
+		// give the rewritten object a new version id (the metadata of the
+		// existing version was changed in place under its old id before)
+		if p.versioningEnabled() && vEnabled && !fi.IsDir() {
+			acct, ok := ctx.Value("account").(auth.Account)
+			if !ok {
+				acct = auth.Account{}
+			}
+			_, err := p.createObjVersion(dstBucket, dstObject, fi.Size(), acct)
+			if err != nil {
+				return nil, fmt.Errorf("create object version: %w", err)
+			}
+			err = p.meta.StoreAttribute(nil, dstBucket, dstObject, versionIdKey, []byte(ulid.Make().String()))
+			if err != nil {
+				return nil, fmt.Errorf("set versionId attr: %w", err)
+			}
+		}
+
 		// Delete the object metadata
 		for k := range mdmap {
 			err := p.meta.DeleteAttribute(dstBucket, dstObject,
